@@ -128,3 +128,147 @@ class PlanCompactionSpec(KernelSpec):
 
 
 from ..mirsym.values import cast_int  # noqa: E402
+
+
+# ----------------------------------------------------------------------------------------------------
+# C07.e : Table::batch - the row ranges of successive partitions tile the table
+# ----------------------------------------------------------------------------------------------------
+import re as _re
+from ..pyengine import run_sequence
+from ..mirsym.values import UNIT
+
+
+class TableBatchSpec(KernelSpec):
+    """Table::batch called for successive frozen buffers of n1, n2 (, n3) rows: an empty buffer creates nothing; otherwise the new
+    partition gets the next id and the row offset where the previous one ended, is registered under its id, and
+    next_partition_offset advances by the buffer's row count - partition ranges tile [0, rows)."""
+    diff_cases = 2
+
+    def get_fn(self, ctx, inst):
+        return None
+
+    def instantiations(self, tier):
+        return [{"nat": "table_batch"}]
+
+    def shapes(self, tier, inst):
+        return [1, 2] if tier == "quick" else [1, 2, 3]
+
+    def sym_inputs(self, inst, shape):
+        inp = {"id0": sym("u64", "id0"), "off0": sym("usize", "off0"), "n": [sym("usize", f"n{i}") for i in range(shape)]}
+        pre = [z3.ULT(inp["id0"].v, 1 << 40), z3.ULT(inp["off0"].v, 1 << 40)] + [z3.ULT(x.v, 1 << 32) for x in inp["n"]]
+        return inp, pre
+
+    def explore(self, ctx, ex, fn, inst, shape, inp, pre):
+        src = ctx.src()
+        tfs = src.struct_fields("Table", having="next_partition_offset")
+        bfs = src.struct_fields("Buffer", having="length")
+        pfs = src.struct_fields("Partition", having="total_size_bytes")
+        if tfs is None or bfs is None or pfs is None:
+            raise interp.Unsupported("Table / Buffer / Partition definitions not found")
+
+        def buffer(n):
+            named = {"buffer": hashmap_new(), "length": n}
+            return Agg("struct", [named[f] for f in bfs], name="Buffer")
+        named = {"name": VecObj([I("u8", 116)], "u8", is_str=True), "partitions": Agg("struct", [hashmap_new()], name="Lock"),
+                 "next_partition_id": Agg("struct", [inp["id0"]], name="Atomic"), "next_partition_offset": Agg("struct", [inp["off0"]], name="Atomic"),
+                 "buffer": Agg("struct", [buffer(I("usize", 0))], name="Lock"), "frozen_buffer": Agg("struct", [buffer(I("usize", 0))], name="Lock")}
+        table = Agg("struct", [named.get(f, Havoc("?", f)) for f in tfs], name="Table")
+        self._tfs, self._pfs = tfs, pfs
+
+        def from_buffer(ex_, st, fr, path, args, m):
+            name, pid, buf, lru, off = args
+            ln = buf.fields[bfs.index("length")]
+            pn = {"id": pid, "range": Agg("struct", [off, binop("Add", off, ln)], name="Range"), "total_size_bytes": I("usize", 0)}
+            return Agg("tuple", [Agg("struct", [pn.get(f, Havoc("?", f)) for f in pfs], name="Partition"), VecObj([])])
+
+        def take_buffer(ex_, st, fr, path, args, m):
+            from ..mirsym.interp import Loc
+            a, = args
+            la = Loc(a.cell, a.path, a.window)
+            old = ex_.read_loc(la)
+            ex_.write_loc(la, buffer(I("usize", 0)))
+            return old
+        ex.stubs = [(_re.compile(r"(?:^|::)Partition::from_buffer$"), from_buffer), (_re.compile(r"^(?:std|core)::mem::take::<(?:ingest::buffer::)?Buffer>$"), take_buffer)]
+        batch, _ = ex.resolve_method("Table", None, "batch")
+        env = {"table": Cell(table)}
+        calls = []
+        fi = tfs.index("frozen_buffer")
+        for k in range(shape):
+            def build(env, k=k):
+                # the flush froze a buffer of n_k rows (Table::freeze_buffer swaps it in)
+                env["table"].v.fields[fi].fields[0] = buffer(inp["n"][k])
+                return [Ref(env["table"])]
+            calls.append((batch, build, {}, f"r{k}"))
+        return run_sequence(ex, pre, env, calls)
+
+    def view(self, x, shape):
+        if isinstance(x, dict):
+            return x
+        env = x.env
+        from ..mirsym.models import hashmap_entries, deref_val
+        t = env["table"].v
+        res = []
+        for k in range(shape):
+            r = env[f"r{k}"].v
+            if r.variant == "None":
+                res.append(None)
+            else:
+                p = r.fields[0]
+                while isinstance(p, Ref):
+                    p = deref_val(p)
+                rg = p.fields[self._pfs.index("range")]
+                res.append((p.fields[self._pfs.index("id")], rg.fields[0], rg.fields[1]))
+        keys = [e.fields[0] for e in hashmap_entries(t.fields[self._tfs.index("partitions")].fields[0])]
+        return {"results": res, "next_offset": t.fields[self._tfs.index("next_partition_offset")].fields[0],
+                "next_id": t.fields[self._tfs.index("next_partition_id")].fields[0], "registered": keys}
+
+    def post(self, inst, shape, inp, value, state=None):
+        v = self.view(state if state is not None else value, shape)
+        conds = []
+        # the path fixes which buffers were empty: res[k] is None exactly on those paths
+        off = inp["off0"]
+        pid = inp["id0"]
+        reg = []
+        for k in range(shape):
+            n = inp["n"][k]
+            r = v["results"][k]
+            if r is None:
+                conds.append((f"batch {k}: no partition is created only for an empty buffer", binop("Eq", n, I("usize", 0))))
+                continue
+            conds.append((f"batch {k}: a non-empty buffer becomes a partition", binop("Ne", n, I("usize", 0))))
+            conds.append((f"batch {k}: the partition gets the next partition id", binop("Eq", r[0], pid)))
+            conds.append((f"batch {k}: the partition starts at the row where the previous one ended", binop("Eq", r[1], off)))
+            conds.append((f"batch {k}: the partition covers exactly the buffer's rows", binop("Eq", r[2], binop("Add", off, n))))
+            reg.append(pid)
+            off = binop("Add", off, n)
+            pid = binop("Add", pid, I("u64", 1))
+        conds.append(("next_partition_offset == rows handed out so far (ranges tile the table)", binop("Eq", v["next_offset"], off)))
+        conds.append(("every created partition is registered under its id", band(B(len(v["registered"]) == len(reg)), *[binop("Eq", a, b) for a, b in zip(v["registered"], reg)])))
+        return conds
+
+    def panic_ok(self, inst, shape, inp, msg):
+        return B(False)
+
+    def random_inputs(self, rng, inst, shape):
+        return {"id0": I("u64", rng.randint(0, 9)), "off0": I("usize", rng.choice([0, 5, 100])), "n": [I("usize", rng.choice([0, 1, 3, 8])) for _ in range(shape)]}
+
+    def native(self, inst, shape, inp):
+        if inp is None:
+            return ("table_batch", [])
+        return ("table_batch", [inp["id0"].v, inp["off0"].v, fmt_ints(inp["n"])])
+
+    def parse_native(self, inst, shape, toks):
+        res = []
+        for x in toks[0].split(";"):
+            if x == "none":
+                res.append(None)
+            else:
+                a, b, c = x.split(":")
+                res.append((I("u64", int(a)), I("usize", int(b)), I("usize", int(c))))
+        return {"results": res, "next_offset": I("usize", int(toks[1])), "next_id": I("u64", int(toks[2])), "registered": parse_ints(toks[3], "u64")}
+
+    def native_view(self, inst, shape, v, st):
+        d = self.view(st, shape)
+        d = dict(d)
+        d["registered"] = sorted(d["registered"], key=lambda x: x.v)
+        return d
